@@ -4,7 +4,7 @@ func buildProperties() []Property {
 	return []Property{
 		{
 			ID: "C17", Title: "DCG translation preserves the language and the threading of the remainder",
-			Decides:    "a necessary condition of 'leaves exactly the unconsumed remainder': in every entry of the construct table and in the non-terminal/terminal helpers the remainder is reachable from the input list over the hidden-argument pairs handed to sub-translations and constructed goals, every fresh difference-list variable is fed by that threading, and the rule translator connects head and body through its fresh variables. This is the thinnest claim of the set. The left operand of a generated conjunction never ends at the caller's remainder (steadfastness). A conjunction nested on the left (the shape the translation gives every non-final '!') is part of the clause body's sequence, so the cut is the clause's cut.",
+			Decides:    "a necessary condition of 'leaves exactly the unconsumed remainder': in every entry of the construct table and in the non-terminal/terminal helpers the remainder is reachable from the input list over the hidden-argument pairs handed to sub-translations and constructed goals, every fresh difference-list variable is fed by that threading, and the rule translator connects head and body through its fresh variables. This is the thinnest claim of the set. The left operand of a generated conjunction never ends at the caller's remainder (steadfastness). A conjunction nested on the left (the shape the translation gives every non-final '!') is part of the clause body's sequence, so the cut is the clause's cut. The push-back terminals of `H, PB --> B` lead from the head's remainder to the body's remainder.",
 			NotDecided: "language preservation, argument bindings, cut and negation semantics inside bodies.",
 			Rules: []RuleDef{
 				{"R-SEQ-FLATTEN", 1, ruleSeqFlatten},
@@ -16,7 +16,7 @@ func buildProperties() []Property {
 		},
 		{
 			ID: "C06", Title: "Text written by writeq/write_canonical reads back as the same term",
-			Decides:    "agreement of the writer's and the reader's tables and exactness of the number paths: every escape the writer can emit is accepted by the lexer class, matched by the reader's pattern and mapped back to the same character; quote, backslash and control characters always trigger escaping; floats are written with the shortest round-tripping representation and read by one correctly rounding conversion; write_term/3 and read_term/3 use the VM's one operator table. The write options are extended copy-on-write: a map reached through an options struct received by value is never updated in place. Integer and Float agree on blanks and parentheses next to operators (zero and negative zero included); a character is written verbatim inside quotes only if the lexer's own predicate accepts it; the functor of functional notation is written without an operator table; only the token `_` is anonymous; the reader produces no infinite Float; the sign of an integer literal reaches its range test; a token continues as valid after a numeric escape only if utf8.ValidRune accepted the value of the escape (so the escape writeq emits for U+FFFD reads back, and an escape that denotes no character is refused in every kind of token).",
+			Decides:    "agreement of the writer's and the reader's tables and exactness of the number paths: every escape the writer can emit is accepted by the lexer class, matched by the reader's pattern and mapped back to the same character; quote, backslash and control characters always trigger escaping; floats are written with the shortest round-tripping representation and read by one correctly rounding conversion; write_term/3 and read_term/3 use the VM's one operator table. The write options are extended copy-on-write: a map reached through an options struct received by value is never updated in place. Integer and Float agree on blanks and parentheses next to operators (zero and negative zero included); a character is written verbatim inside quotes only if the lexer's own predicate accepts it; the functor of functional notation is written without an operator table; only the token `_` is anonymous; the reader produces no infinite Float; the sign of an integer literal reaches its range test; a token continues as valid after a numeric escape only if utf8.ValidRune accepted the value of the escape (so the escape writeq emits for U+FFFD reads back, and an escape that denotes no character is refused in every kind of token). A term between ( ) or { } is read with the priority of a whole read-term; an infix or postfix operator is accepted only if its own priority fits the maximum and the left operand fits its left side; Float and Integer both write a blank before a letter-digit operator on their right.",
 			NotDecided: "bracketing/spacing correctness for operator contexts - the heart of the round trip - which depends on pairs (context operator, operand) over all tables.",
 			Rules: []RuleDef{
 				{"R-INT-LITERAL-SIGNED", 1, ruleIntLiteralSigned},
@@ -37,7 +37,7 @@ func buildProperties() []Property {
 		},
 		{
 			ID: "C16", Title: "Relational built-ins enumerate exactly their relation in every call mode",
-			Decides:    "the clause 'text measured in characters, not bytes': in the atom-processing builtins (resolved from the registration calls) a string obtained from an atom is measured and indexed only through []rune or range offsets; its byte length feeds only capacities and zero tests; it is sliced only at offsets produced by ranging over the same string. Every built-in inspects the dynamic type of an argument only after resolving it (mode discrimination is made on the resolved term); no cutset-taking strings function is given computed text. A Prolog integer is bounded inside the range of the narrow Go type before it is converted (character codes, bytes), and a code becomes text only after utf8.ValidRune accepted it (char_code/2, atom_codes/2 and number_codes/2 agree: surrogate halves are refused).",
+			Decides:    "the clause 'text measured in characters, not bytes': in the atom-processing builtins (resolved from the registration calls) a string obtained from an atom is measured and indexed only through []rune or range offsets; its byte length feeds only capacities and zero tests; it is sliced only at offsets produced by ranging over the same string. Every built-in inspects the dynamic type of an argument only after resolving it (mode discrimination is made on the resolved term); no cutset-taking strings function is given computed text. A Prolog integer is bounded inside the range of the narrow Go type before it is converted (character codes, bytes), and a code becomes text only after utf8.ValidRune accepted it (char_code/2, atom_codes/2 and number_codes/2 agree: surrogate halves are refused). member/2 and select/3 in bootstrap.pl have pure clauses (token-level rule).",
 			NotDecided: "completeness and exactly-once enumeration in every mode - behavioural.",
 			Rules: []RuleDef{
 				{"R-ATOM-CANONICAL", 1, ruleAtomCanonical},
@@ -53,7 +53,7 @@ func buildProperties() []Property {
 		},
 		{
 			ID: "C19", Title: "A stream is one forward cursor: peeks do not consume, nothing skipped/repeated",
-			Decides:    "the cursor bookkeeping (buffer, position, end-of-stream, last rune size) is touched only by the stream's own methods; each method that moves the underlying reader/writer moves `position` in the same direction by the amount transferred, on the success edge; peek_char/peek_byte install the matching un-read on every path after their read and get_* never un-read; read_term/3 un-reads exactly once on the stream its parser was built on. Byte-unit operations on the underlying reader run only under streamType == binary and rune-unit operations only under text. A peek gives back what it read before the continuation can run and only when the read succeeded; read_term/3 gives back its look-ahead rune before the continuation runs and does not give back a delivered end of file; the lexer's window never reads its source again after the source has failed; un-reading a look-ahead that found the end takes the stream back to at-the-end. The end-of-stream state becomes `at` only when nothing is buffered.",
+			Decides:    "the cursor bookkeeping (buffer, position, end-of-stream, last rune size) is touched only by the stream's own methods; each method that moves the underlying reader/writer moves `position` in the same direction by the amount transferred, on the success edge; peek_char/peek_byte install the matching un-read on every path after their read and get_* never un-read; read_term/3 un-reads exactly once on the stream its parser was built on. Byte-unit operations on the underlying reader run only under streamType == binary and rune-unit operations only under text. A peek gives back what it read before the continuation can run and only when the read succeeded; read_term/3 gives back its look-ahead rune before the continuation runs and does not give back a delivered end of file; the lexer's window never reads its source again after the source has failed; un-reading a look-ahead that found the end takes the stream back to at-the-end. The end-of-stream state becomes `at` only when nothing is buffered. The eof_action is applied only after mode and type of the operation have been checked (a refused operation leaves the stream as it is).",
 			NotDecided: "that mixed operation sequences deliver consecutive data, the end-of-stream state machine, that one un-read is enough after read_term (would need the ring's contents, not its depth).",
 			Rules: []RuleDef{
 				{"R-EOS-AT-EMPTY", 2, ruleEosAtEmpty},
@@ -69,7 +69,7 @@ func buildProperties() []Property {
 		},
 		{
 			ID: "C08", Title: "Standard order is total and representation-independent; sorts obey it",
-			Decides:    "for every ordered pair of concrete term representations the Compare method, partially evaluated under 'the resolved argument has that dynamic type', returns exactly the constant the documented class order dictates, antisymmetrically (cross-class totality and antisymmetry; transitivity follows from a consistent rank); same-class pairs reach a value comparison; keysort/2 uses a stable sort; sort/2 and setof/3 share one set constructor that orders and deduplicates with Term.Compare. While a consumer tests a Compare result against -1 or 1, every member of the Compare family returns only -1, 0, 1 or another member's result; comparison inspects terms only after resolution. The reader produces no infinite Float (hence no NaN); atoms have one representation per name.",
+			Decides:    "for every ordered pair of concrete term representations the Compare method, partially evaluated under 'the resolved argument has that dynamic type', returns exactly the constant the documented class order dictates, antisymmetrically (cross-class totality and antisymmetry; transitivity follows from a consistent rank); same-class pairs reach a value comparison; keysort/2 uses a stable sort; sort/2 and setof/3 share one set constructor that orders and deduplicates with Term.Compare. While a consumer tests a Compare result against -1 or 1, every member of the Compare family returns only -1, 0, 1 or another member's result; comparison inspects terms only after resolution. The reader produces no infinite Float (hence no NaN); atoms have one representation per name. Compare of a compound representation asserts the other operand to no other concrete representation than its own.",
 			NotDecided: "ordering within a class (atoms by text, compounds by arity/name/args, numeric values), and that different encodings of the same list compare equal.",
 			Rules: []RuleDef{
 				{"R-ATOM-CANONICAL", 1, ruleAtomCanonical},
@@ -87,7 +87,7 @@ func buildProperties() []Property {
 		},
 		{
 			ID: "C14", Title: "Separate interpreters are isolated and run concurrently without data races",
-			Decides:    "whole-program discipline for package-level state, recomputed from the source on every run: every run-time write to a package-level variable is under that variable's mutex or atomic; a variable written after init is read only under the lock or atomically; package-level maps are only read after init; no store can reach an object shared through a package-level variable (default write options, singleton promises, root environment). Hence the only state shared between two interpreters is guarded (no data race on library state for any schedule) and nothing one interpreter changes is reachable from another.",
+			Decides:    "whole-program discipline for package-level state, recomputed from the source on every run: every run-time write to a package-level variable is under that variable's mutex or atomic; a variable written after init is read only under the lock or atomically; package-level maps are only read after init; no store can reach an object shared through a package-level variable (default write options, singleton promises, root environment). Hence the only state shared between two interpreters is guarded (no data race on library state for any schedule) and nothing one interpreter changes is reachable from another. Nothing that can block or call back (interface method calls, function values, channel operations, callees handed an interface) runs while a package-level lock is held.",
 			NotDecided: "equality of answers with a sequential run; races inside host-provided readers/writers; the VM fields themselves (one goroutine per interpreter is assumed by the property).",
 			Rules: []RuleDef{
 				{"R-LOCK-LEAF", 2, ruleLockLeaf},
@@ -102,7 +102,7 @@ func buildProperties() []Property {
 		},
 		{
 			ID: "C12", Title: "The Solutions iterator never blocks, counts answers exactly and stops on Close",
-			Decides:    "typestate of the iterator: no send on the request channel after Close, Close closes it at most once and reports the repeat, no blocking send once the answer channel was found closed (Next after exhaustion returns false instead of blocking), every blocking receive of the search goroutine is released by Close and the answer channel is closed by a deferred close; the answer Scan reads is replaced only by an answer that was received (Scan after exhaustion reports the last one).",
+			Decides:    "typestate of the iterator: no send on the request channel after Close, Close closes it at most once and reports the repeat, no blocking send once the answer channel was found closed (Next after exhaustion returns false instead of blocking), every blocking receive of the search goroutine is released by Close and the answer channel is closed by a deferred close; the answer Scan reads is replaced only by an answer that was received (Scan after exhaustion reports the last one). No built-in runs its continuation from inside a loop of its own body (a stop returned after Close would be stored and ignored).",
 			NotDecided: "exactly-once delivery of answers, interleaving of two iterations, promptness, goroutine counts - histories and schedules.",
 			Rules: []RuleDef{
 				{"R-SCAN-OVERWRITES", 8, ruleScanOverwrites},
@@ -117,7 +117,7 @@ func buildProperties() []Property {
 		},
 		{
 			ID: "C15", Title: "Go values cross the API as data: placeholders = literals, Scan exact or error",
-			Decides:    "every narrowing conversion of an answer value in Scan is guarded by an exactness/range test with an error edge (sizes from the analysed build, thorough tier repeats with 32-bit int); placeholder arguments never flow into a reader, lexer or parser constructor (they enter the grammar only as finished terms); a term is returned only when the argument queue is empty and the queue is indexed only when non-empty. The destination of each element conversion into a slice is computed per element inside the loop. An unsigned 64-bit Go integer is converted to Integer only under a bound; left-over placeholder arguments are reported by Term outside text mode and by the loader at the end of a text; reflect.Value.Interface is applied to struct fields only when they are exported, Addr only to fields of an addressable struct, SetMapIndex only to a non-nil map; every typed Scan helper overwrites its destination on every path without error; placeholders and literals are converted under the same double_quotes value (arguments are converted where the placeholder stands; eager conversion would be accepted only if the flag of an existing parser never changed); a float placeholder is finite.",
+			Decides:    "every narrowing conversion of an answer value in Scan is guarded by an exactness/range test with an error edge (sizes from the analysed build, thorough tier repeats with 32-bit int); placeholder arguments never flow into a reader, lexer or parser constructor (they enter the grammar only as finished terms); a term is returned only when the argument queue is empty and the queue is indexed only when non-empty. The destination of each element conversion into a slice is computed per element inside the loop. An unsigned 64-bit Go integer is converted to Integer only under a bound; left-over placeholder arguments are reported by Term outside text mode and by the loader at the end of a text; reflect.Value.Interface is applied to struct fields only when they are exported, Addr only to fields of an addressable struct, SetMapIndex only to a non-nil map; every typed Scan helper overwrites its destination on every path without error; placeholders and literals are converted under the same double_quotes value (arguments are converted where the placeholder stands; eager conversion would be accepted only if the flag of an existing parser never changed); a float placeholder is finite. The Term types a Scan helper accepts through a Go interface are the text-like ones (computed from the type-checked program); an argument is substituted only for an unquoted placeholder token.",
 			NotDecided: "that termOf(v) equals the literal denoting v under every double_quotes setting.",
 			Rules: []RuleDef{
 				{"R-FLOAT-FINITE", 2, ruleFloatFinite},
@@ -136,7 +136,7 @@ func buildProperties() []Property {
 		},
 		{
 			ID: "C09", Title: "Database updates follow the logical update view; retract removes its match",
-			Decides:    "no delayed continuation addresses the live clause list by a position computed at call time (the mechanism behind the wrong deletions and the slice-bounds panic); calls iterate clause copies captured eagerly; the live database is written only from code statically reachable from asserta/assertz/retract/abolish/consult, the loader and the registration API. The assert built-ins compile a renamed copy of the given clause and write the database only after the last step that can fail; permission_error(_, static_procedure/private_procedure, _) is raised only for a procedure that exists (abolish/1 of an absent one succeeds).",
+			Decides:    "no delayed continuation addresses the live clause list by a position computed at call time (the mechanism behind the wrong deletions and the slice-bounds panic); calls iterate clause copies captured eagerly; the live database is written only from code statically reachable from asserta/assertz/retract/abolish/consult, the loader and the registration API. The assert built-ins compile a renamed copy of the given clause and write the database only after the last step that can fail; permission_error(_, static_procedure/private_procedure, _) is raised only for a procedure that exists (abolish/1 of an absent one succeeds). retract/1 calls its continuation only after it has removed a clause; abolish/1 empties the record before it deletes the table entry.",
 			NotDecided: "that the final database equals the sequential reference model for every history; front/end insertion order.",
 			Rules: []RuleDef{
 				{"R-BOOTSTRAP-RETRACTALL", 1, ruleBootstrapRetractall},
@@ -173,7 +173,7 @@ func buildProperties() []Property {
 		},
 		{
 			ID: "C18", Title: "The operator table evolves as op/3 defines; failed updates change nothing",
-			Decides:    "op/3 validates everything before it mutates anything (no error exit is reachable after a mutation); the operator table is written only from code reachable from op/3 and the parser/VM initialisers; write_term/3 and every term-reading parser use the VM's one table. Every iteration of the commit loop of op/3 reaches define (a skip is allowed only across a whole-operator comparison); op/3 inspects its arguments after resolution. The decision about the operator ',' does not depend on the requested priority or specifier.",
+			Decides:    "op/3 validates everything before it mutates anything (no error exit is reachable after a mutation); the operator table is written only from code reachable from op/3 and the parser/VM initialisers; write_term/3 and every term-reading parser use the VM's one table. Every iteration of the commit loop of op/3 reaches define (a skip is allowed only across a whole-operator comparison); op/3 inspects its arguments after resolution. The decision about the operator ',' does not depend on the requested priority or specifier. The loop of op/3 that applies the request to each name is left only at its header.",
 			NotDecided: "that current_op/3 enumerates exactly the ISO table after every history (class exclusion, priority-0 removal are value-level).",
 			Rules: []RuleDef{
 				{"R-OPS-CLASS-LOCAL", 1, ruleOpsClassLocal},
@@ -187,7 +187,7 @@ func buildProperties() []Property {
 		},
 		{
 			ID: "C20", Title: "Loading defines clauses in source order; a failed load defines nothing",
-			Decides:    "every write of the loader to the live database is dominated by the success edges of both staging steps and the commit loop has no early return; nothing statically reachable from the staging steps (short of a nested load) writes the live database. Every iteration of the commit loop writes the predicate to the database; ensure_loaded/1 un-marks the file on every error exit. The parser says \"no more clauses\" only when no part of a token has been accepted; whatever the parser copies by value from the VM (double_quotes) is refreshed before each clause, so a directive that sets it governs the rest of the text; the discontiguity test does not depend on other declarations of the predicate.",
+			Decides:    "every write of the loader to the live database is dominated by the success edges of both staging steps and the commit loop has no early return; nothing statically reachable from the staging steps (short of a nested load) writes the live database. Every iteration of the commit loop writes the predicate to the database; ensure_loaded/1 un-marks the file on every error exit. The parser says \"no more clauses\" only when no part of a token has been accepted; whatever the parser copies by value from the VM (double_quotes) is refreshed before each clause, so a directive that sets it governs the rest of the text; the discontiguity test does not depend on other declarations of the predicate. Every directive ends the current run of clauses (text.flush dominates every return of the directive handler).",
 			NotDecided: "source order, multifile/discontiguous semantics, effects of directives executed during a load that later fails (by design they run at once).",
 			Rules: []RuleDef{
 				{"R-DISCONTIGUOUS-INDEP", 1, ruleDiscontiguousIndep},
@@ -203,7 +203,7 @@ func buildProperties() []Property {
 		},
 		{
 			ID: "C01", Title: "Answers are those of depth-first, left-to-right SLD resolution, in order",
-			Decides:    "each clause activation runs on a persistent environment (no binding leaks between activations, sibling branches or successive answers: every Env store targets a private node); the interpreter threads its variable frame, continuation and cut barrier unchanged through its own re-entries; every opcode has a handler. A functor-name comparison is always paired with an examination of the same value's arity.",
+			Decides:    "each clause activation runs on a persistent environment (no binding leaks between activations, sibling branches or successive answers: every Env store targets a private node); the interpreter threads its variable frame, continuation and cut barrier unchanged through its own re-entries; every opcode has a handler. A functor-name comparison is always paired with an examination of the same value's arity. Every clause of a procedure becomes an alternative of a call (no pre-filter); no built-in runs its continuation from inside a loop of its own body.",
 			NotDecided: "that the answer sequence equals the reference SLD sequence (clause order, goal order, completeness, termination reporting) - a statement about the dynamic shape of the promise stack for every program.",
 			Rules: []RuleDef{
 				{"R-CALL-ALL-CLAUSES", 1, ruleCallAllClauses},
@@ -221,7 +221,7 @@ func buildProperties() []Property {
 		},
 		{
 			ID: "C03", Title: "Cut removes exactly the clause-level choice points; call/N makes it local",
-			Decides:    "cut-barrier discipline: the barrier field is written only at construction and cleared only by the trampoline; a cut is tagged with the activation's own barrier; each clause alternative gets the promise holding this call's alternatives as barrier; no *Promise can travel into a callee (procedure interface, Cont, VM fields), so every goal entered through call/N, \\+, findall, catch gets a fresh barrier. Control constructs inspect the shape of a goal only after resolving it and their closures write no captured Go variable (no state that backtracking cannot restore). The sequence iterator looks at the left operand of a conjunction, so a conjunction nested on the left is not compiled as a call of ','/2 (in which a cut would be local).",
+			Decides:    "cut-barrier discipline: the barrier field is written only at construction and cleared only by the trampoline; a cut is tagged with the activation's own barrier; each clause alternative gets the promise holding this call's alternatives as barrier; no *Promise can travel into a callee (procedure interface, Cont, VM fields), so every goal entered through call/N, \\+, findall, catch gets a fresh barrier. Control constructs inspect the shape of a goal only after resolving it and their closures write no captured Go variable (no state that backtracking cannot restore). The sequence iterator looks at the left operand of a conjunction, so a conjunction nested on the left is not compiled as a call of ','/2 (in which a cut would be local). The alternatives iterator keeps only subterms of its source term (it builds no disjunction, so it cannot manufacture an if-then-else).",
 			NotDecided: "that popUntil prunes exactly the right frames for every dynamic stack; the derived semantics of ->, once, \\+ in bootstrap.pl.",
 			Rules: []RuleDef{
 				{"R-ALT-SOURCE", 2, ruleAltSource},
@@ -255,7 +255,7 @@ func buildProperties() []Property {
 		},
 		{
 			ID: "C11", Title: "findall/bagof/setof collect exactly the solutions, as copies, grouped by witness",
-			Decides:    "every collected instance is a renamed copy of the template taken under that solution's environment; after the nested search findall/3 and \\+/1 continue with their own outer environment (no goal binding is left behind, with R-ENV-IMMUT); copies keep variable sharing. The whole collection machinery inspects terms only after resolution. Every witness group of the grouping loop becomes an alternative; the variant test keeps the variable correspondence in both directions.",
+			Decides:    "every collected instance is a renamed copy of the template taken under that solution's environment; after the nested search findall/3 and \\+/1 continue with their own outer environment (no goal binding is left behind, with R-ENV-IMMUT); copies keep variable sharing. The whole collection machinery inspects terms only after resolution. Every witness group of the grouping loop becomes an alternative; the variant test keeps the variable correspondence in both directions. The free-variable walk cannot skip the tail of a partial list (whoever reads partial.Compound reads partial.tail).",
 			NotDecided: "free-variable computation, witness variance, partition into groups, solution order.",
 			Rules: []RuleDef{
 				{"R-VARIANT-DESCENDS", 1, ruleVariantDescends},
@@ -272,7 +272,7 @@ func buildProperties() []Property {
 		},
 		{
 			ID: "C13", Title: "Cancelling the context stops any execution promptly; interpreter stays usable",
-			Decides:    "every nested trampoline runs under the caller's context (no fresh Background context around a goal, no captured context inside a thunk); every cycle of the trampoline passes through a non-blocking poll of ctx.Done() and cancellation is returned as ctx.Err(). ensure_loaded/1 un-marks the file on every error exit after marking it (a cancelled load can be repeated). A function that observes ctx.Done() passes through ctx.Err() on every path to an exit.",
+			Decides:    "every nested trampoline runs under the caller's context (no fresh Background context around a goal, no captured context inside a thunk); every cycle of the trampoline passes through a non-blocking poll of ctx.Done() and cancellation is returned as ctx.Err(). ensure_loaded/1 un-marks the file on every error exit after marking it (a cancelled load can be repeated). A function that observes ctx.Done() passes through ctx.Err() on every path to an exit. The loop that reads the clauses of a text observes the context in every iteration.",
 			NotDecided: "the delay bound (Go-level loops between polls are bounded by term size, not by a constant), and that the interpreter stays usable afterwards.",
 			Rules: []RuleDef{
 				{"R-FORCE-ERR-PROPAGATED", 6, ruleForceErrPropagated},
@@ -285,7 +285,7 @@ func buildProperties() []Property {
 		},
 		{
 			ID: "C02", Title: "Unification yields a most general unifier, whatever the term representation",
-			Decides:    "a failed unification leaves no binding (environments are persistent: every Env store targets a node private to the writer); unify_with_occurs_check applies the check at every depth and before every bind; atomic terms are compared with a total non-panicking equality; every slice/string encoding of a list reports './2 through the Compound interface. The occurs check recurses into the referent of a bound variable and into every argument; the dynamic type of a term is inspected only after resolution; functor-name comparisons are paired with arity. unify never re-enters itself through a wrapper that fixes the occurs-check flag; the tail of a partial list replaces only the cdr; every one-character name, U+FFFD included, has the rune as its only representation.",
+			Decides:    "a failed unification leaves no binding (environments are persistent: every Env store targets a node private to the writer); unify_with_occurs_check applies the check at every depth and before every bind; atomic terms are compared with a total non-panicking equality; every slice/string encoding of a list reports './2 through the Compound interface. The occurs check recurses into the referent of a bound variable and into every argument; the dynamic type of a term is inspected only after resolution; functor-name comparisons are paired with arity. unify never re-enters itself through a wrapper that fixes the occurs-check flag; the tail of a partial list replaces only the cdr; every one-character name, U+FFFD included, has the rune as its only representation. A function that reads the prefix field of a partial list reads its tail too; the byte length of a compact text list never serves as an element count.",
 			NotDecided: "most-generality, symmetry, idempotence, and that Arg(n) of the four list encodings denotes the same abstract argument (algebraic laws over all term pairs).",
 			Rules: []RuleDef{
 				{"R-TEXT-RUNE", 8, ruleTextRune},
@@ -325,7 +325,7 @@ func buildProperties() []Property {
 		},
 		{
 			ID: "C05", Title: "No input crashes or wedges the host; every failure is a Prolog error term",
-			Decides:    "panic classes visible in code shape (zero divisor, negative shift, uncomparable interface comparison, missing table row) Every computed index into a fixed-size array is proven in range (enumeration, range loop, branch facts, or ring cursor by interval interpretation). The parser's next() moves its token window by one slot on every return path, failures included, so the unconditional backup() of its callers is symmetric (no endless re-parsing at the end of the input). A memoising mark of the loader precedes every call that runs goals, and a file-driven recursion (include/1) records and tests what is being loaded.",
+			Decides:    "panic classes visible in code shape (zero divisor, negative shift, uncomparable interface comparison, missing table row) Every computed index into a fixed-size array is proven in range (enumeration, range loop, branch facts, or ring cursor by interval interpretation). The parser's next() moves its token window by one slot on every return path, failures included, so the unconditional backup() of its callers is symmetric (no endless re-parsing at the end of the input). A memoising mark of the loader precedes every call that runs goals, and a file-driven recursion (include/1) records and tests what is being loaded. Every use of a nilable field of VM (FS, input, output, Unknown) that needs it non-nil is under a non-nil fact: the zero VM is a valid VM.",
 			NotDecided: "termination on arbitrary text, slice bounds in general, memory exhaustion",
 			Rules: []RuleDef{
 				{"R-PARTIAL-SPINE", 1, rulePartialSpine},
